@@ -7,6 +7,12 @@ import valgen
 from common import rng
 
 PROP = 'C11'
+
+
+def _is_sub_name(name):
+    """the printed name of a generated subclass of a built-in type: valgen.MyX_f, valgen.Holder.MyX_f (nested), or -
+    for the classes standing for those of the running script - MyX_f / MainOuter.MyX_f without a module"""
+    return name.split('.')[-1].startswith('My') and name.split('.')[0] in ('valgen', 'MainOuter', name.split('.')[-1])
 F_KW = 'C11-keyword-leaves'
 F_KEY = 'C11-str-keys'
 F_SPECIAL = 'C11-special-float'
@@ -75,7 +81,7 @@ def is_kwleaf(n):
 def is_strkey(n):
     if isinstance(n, ast.Constant) and isinstance(n.value, (str, bytes)):
         return True
-    return isinstance(n, ast.Call) and ast.unparse(n.func).startswith('valgen.My') and len(n.args) == 1 and \
+    return isinstance(n, ast.Call) and _is_sub_name(ast.unparse(n.func)) and len(n.args) == 1 and \
         is_strkey(n.args[0])
 
 
@@ -83,7 +89,7 @@ def is_empty_seq(n):
     if isinstance(n, (ast.List, ast.Tuple)) and not n.elts:
         return True
     return isinstance(n, ast.Call) and not n.args and not n.keywords and \
-        (ast.unparse(n.func) in ('set', 'frozenset') or ast.unparse(n.func).startswith('valgen.My'))
+        (ast.unparse(n.func) in ('set', 'frozenset') or _is_sub_name(ast.unparse(n.func)))
 
 
 def is_special_float(n):
@@ -139,7 +145,7 @@ def walk(full, cut, k, d, notes, keypos=False):
             return 'call shape differs: %s vs %s' % (ast.unparse(full)[:60], ast.unparse(cut)[:60])
         fname = ast.unparse(full.func)
         sole = len(full.args) == 1 and not full.keywords
-        wrapper = fname.startswith('valgen.My') or fname in ('frozenset', 'valgen.Color')
+        wrapper = _is_sub_name(fname) or fname in ('frozenset', 'valgen.Color')
         hug = sole and (wrapper or isinstance(full.args[0], (ast.List, ast.Dict, ast.Tuple)))
         if wrapper and sole and isinstance(full.args[0], ast.Constant):
             # Cls(literal) of an int/float/str/bytes subclass is a leaf
